@@ -15,11 +15,15 @@ holds the same tensor objects afterwards.
 """
 from __future__ import annotations
 
+import contextlib
 import itertools
 import os
 import random
 import re
+import signal
 import tempfile
+import threading
+import time
 import types
 
 import numpy as np
@@ -69,6 +73,13 @@ THEOREMS = [NS + n for n in (
     "C07_sequence_preserves",
     "C07_sequence_init",
     "C07_sequence_save_load",
+    "C07_st_unload_values",
+    "C07_st_roundtrip_values",
+    "C07_stBackend_ok",
+    "C07_sequence_mixed",
+    "C07_sequence_mixed_save_load",
+    "C07_restore_async",
+    "C07_st_keyerror_iff",
 )]
 ASSUMPTIONS = [
     "tensor.nbytes == len(tensor.tobytes()): imported from C04 for tensors given by element width + elements "
@@ -93,14 +104,113 @@ ASSUMPTIONS = [
     "the restore loop is modelled step by step through the const_value setter (restoreLoop): it cannot raise when every "
     "original const_value passes the setter's check, which is always so outside onnx_ir.DEBUG mode (C07_setter_nodebug); "
     "in DEBUG mode with a duck-typed tensor it raises and stops (C07_restore_stops; observation D430, counted, outside the "
-    "C07 statement); asynchronous exceptions (KeyboardInterrupt inside the loop) are not modelled",
+    "C07 statement); an ASYNCHRONOUS exception delivered inside the loop (KeyboardInterrupt, a raising signal handler) ends "
+    "it after n completed assignments: modelled (restoreLoopCut / saveRunAsync), C07_restore_async says exactly what is "
+    "restored (the first n remembered values; the others keep what the save put there: observation D435, counted, outside "
+    "the C07 statement - no Python finally loop can keep the clause under asynchronous exceptions); tied to the code by "
+    "raising KeyboardInterrupt from a trace function on entry of the const_value setter for the (n+1)-th restoring "
+    "assignment (the setter's only effect is one attribute store, so this covers every delivery point inside the loop; "
+    "delivery inside the try block is the ordinary failure-point family)",
     "call sequences: references into a data file that a later save replaced are 'stale' and nothing is claimed about them "
     "(the raw writer invalidates the large ones; small ones and the safetensors backend do not: observations D431/D433, "
-    "counted); a call handed a stale tensor is outside the sequence theorem; Backend.Ok is proved for the raw backend "
-    "(C07_rawBackend_ok), for the safetensors backend it follows from C07_st_roundtrip + C07_threshold_st but the "
-    "instance is not formalised: safetensors steps of sequences are oracle-only",
+    "counted); a call handed a stale tensor is outside the sequence theorem; Backend.Ok is proved for BOTH backends "
+    "(C07_rawBackend_ok; C07_stBackend_ok under the name check of save_safetensors, with the shards staged and moved into "
+    "place after the last one was written, so that the files are a function of the values read beforehand); every "
+    "generated sequence, mixed ones included, is compared with the sequence model step by step; the safetensors instance "
+    "describes saves that get past the dtype table (no COMPLEX128 at/above the threshold: sequences use UINT8)",
+    "safetensors on initializer positions (C07_st_unload_values, C07_st_roundtrip_values): hypotheses = the up-front name "
+    "check (stNamesOk over the values holding a non-string tensor) and, for the loaded view, stSaveOk (every saved dtype "
+    "has a table entry); both evaluated on every generated safetensors case independently of the model and published "
+    "(hyp_st_names_ok, hyp_st_dtypes_ok); the proto round trip of (location, offset, length, dtype, dims) and of inline "
+    "tensors is differential here (C02/C03); COMPLEX128: no table entry, at/above the threshold the save raises KeyError "
+    "while the shard dictionary is built and no file of the directory changes (C07_st_keyerror_iff; family st_keyerror "
+    "with files of the same names already present), below it the tensor stays inline and the save succeeds (generated)",
     "POSIX path semantics (posixpath.split/splitext/join) for shard names",
 ]
+
+
+# ------------------------------------------------------------------------------------------
+# guards: real code that could loop on a mutated tree never hangs the check
+
+
+class _Timeout(BaseException):
+    """Real code called in the main thread of this process did not return within its limit; `args[0]` is the
+    `nontermination:*` signature."""
+
+
+_GUARD = {"fired": None}
+_CASE_CPU_S, _CASE_WALL_S = 30, 240   # one whole save / sequence case (normally a few milliseconds)
+_PART_A_CPU_S, _PART_A_WALL_S = 120, 600  # one stream of part A (pure functions, thousands of calls)
+
+
+@contextlib.contextmanager
+def alarm_guard(cpu_s, wall_s, signature):
+    """CPU (ITIMER_VIRTUAL) + wall (ITIMER_REAL) guard around real code running in the main thread of this
+    process.  When a limit is hit `_Timeout(signature)` is raised in the main thread and raised AGAIN every half
+    second until the guarded block has been left (so an `except BaseException` of the harness or of the real code
+    cannot swallow it for good); `_GUARD["fired"]` keeps the signature for the caller."""
+    if threading.current_thread() is not threading.main_thread():
+        yield
+        return
+
+    def handler(sig, frm):
+        _GUARD["fired"] = signature
+        raise _Timeout(signature)
+
+    old_r = signal.signal(signal.SIGALRM, handler)
+    old_v = signal.signal(signal.SIGVTALRM, handler)
+    signal.setitimer(signal.ITIMER_REAL, wall_s, 0.5)
+    signal.setitimer(signal.ITIMER_VIRTUAL, cpu_s, 0.5)
+    try:
+        yield
+    finally:
+        signal.setitimer(signal.ITIMER_REAL, 0)
+        signal.setitimer(signal.ITIMER_VIRTUAL, 0)
+        signal.signal(signal.SIGALRM, old_r)
+        signal.signal(signal.SIGVTALRM, old_v)
+
+
+def _guarded_case(fn, case: dict, kind: str | None = None) -> dict:
+    """Run one case of a worker stream under the guard.  A timeout becomes a `nontermination:*` failure of that
+    case, any other escape of the harness a disagreement; never an exception."""
+    label = case.get("family") or case.get("backend") or "case"
+    sig = f"nontermination:{label}"
+    _GUARD["fired"] = None
+    base = {"case": case, "fails": [], "reqs": [], "impl": [], "what": [], "info": {}}
+    if kind:
+        base["kind"] = kind
+    try:
+        with alarm_guard(_CASE_CPU_S, _CASE_WALL_S, sig):
+            res = fn(case)
+        if _GUARD["fired"]:
+            raise _Timeout(_GUARD["fired"])
+        return res
+    except _Timeout:
+        _GUARD["fired"] = None
+        base["fails"].append({"signature": sig, "what": "the real code did not return within "
+                              f"{_CASE_CPU_S}s CPU / {_CASE_WALL_S}s wall on this case", "case": case})
+        base["info"] = {"raised": "nontermination", "timeout": True}
+        return base
+    except BaseException as e:  # noqa: BLE001 - harness problem: reported as a disagreement
+        import traceback
+
+        base["reqs"].append({"m": "layout.pad5", "n": 0})
+        base["impl"].append({"r": "harness error " + traceback.format_exc()[-800:]})
+        base["what"].append("harness")
+        base["info"] = {"raised": type(e).__name__}
+        return base
+
+
+def _guarded_chunk(fn, cases: list[dict], kind_of=None) -> list[dict]:
+    """All cases of one worker; after a nontermination the rest of the chunk is skipped (every case of a looping
+    implementation would cost the whole guard)."""
+    out = []
+    for c in cases:
+        r = _guarded_case(fn, c, kind_of(c) if kind_of else None)
+        out.append(r)
+        if r["info"].get("timeout"):
+            break
+    return out
 
 # ------------------------------------------------------------------------------------------
 # tensors
@@ -483,16 +593,42 @@ def _run_case_in(case: dict, res: dict, fail, backend: str) -> dict:
             case = dict(case, sched=list(case["sched"]) + [i for i in range(len(values)) if i not in case["sched"]])
         serde.serialize_model = spy
         ed._external_tensor_to_memory_tensor = to_mem_spy
+        from onnx_ir import _safetensors as st_mod
+
+        class _SpyTable(dict):
+            """the save table of the safetensors backend: a missing dtype (COMPLEX128) records the store at that
+            moment and raises the KeyError the plain dict raises"""
+
+            def __missing__(self, key):
+                counters.setdefault("at_fail", [v.const_value for v in values])
+                raise KeyError(key)
+
+        orig_table = st_mod._IR_DTYPE_TO_SAFETENSORS_DTYPE
+        st_mod._IR_DTYPE_TO_SAFETENSORS_DTYPE = _SpyTable(orig_table)
+
+        def tree():
+            out = {}
+            for root, _d, fs_ in os.walk(base_dir or "."):
+                for fn in fs_:
+                    pth = os.path.join(root, fn)
+                    with open(pth, "rb") as f:
+                        out[os.path.relpath(pth, base_dir or ".")] = f.read()
+            return out
+
+        tree_before = tree() if case.get("fail") == "st_keyerror" else None
         try:
             if backend == "raw":
                 ir.save(model, dest, **kwargs)
             else:
                 ir.save_safetensors(model, dest, **kwargs)
+        except _Timeout:
+            raise
         except BaseException as e:  # noqa: BLE001
             raised = e
         finally:
             serde.serialize_model = orig_serialize
             ed._external_tensor_to_memory_tensor = orig_to_mem
+            st_mod._IR_DTYPE_TO_SAFETENSORS_DTYPE = orig_table
             ir_core._EXTERNAL_TENSOR_COPY_CHUNK_SIZE = orig_chunk
             if orig_cfr is not None:
                 os.copy_file_range = orig_cfr
@@ -530,7 +666,13 @@ def _run_case_in(case: dict, res: dict, fail, backend: str) -> dict:
         if expect_fail == "missing_ext":
             kmiss = next(k for k in range(len(values)) if specs[decl[k][2]]["kind"] == "ext_missing")
             occ = sum(1 for k in range(kmiss) if is_mem_class(k))
-        phase = {None: "none", "lazy_raises": "write", "validate": "validate", "exists": "validate",
+        if expect_fail == "st_keyerror":
+            # the KeyError surfaces while the entry of the first saved COMPLEX128 tensor is built: after the
+            # tensors saved before it were materialised
+            savedk = [k for k in range(len(values)) if before[k] is not None and specs[decl[k][2]]["kind"] != "str"
+                      and nbytes[k] >= case["thr"]]
+            occ = next((j for j, k in enumerate(savedk) if specs[decl[k][2]]["dtype"] == "COMPLEX128"), 0)
+        phase = {None: "none", "lazy_raises": "write", "st_keyerror": "write", "validate": "validate", "exists": "validate",
                  "missing_ext": "loadMem", "early": "early", "dup_name": "early", "abs_path": "early",
                  "reserved_name": "early",
                  "serialize": "serialize", "small_lazy_raises": "serialize", "format": "protoSave"}[expect_fail]
@@ -546,6 +688,30 @@ def _run_case_in(case: dict, res: dict, fail, backend: str) -> dict:
                 loc = os.fspath(t.location)
                 return [loc, t.offset, t.length] if backend == "raw" else [loc, t.length]
             return "M"
+
+        def st_pos_request():
+            """the position-level safetensors request (every initializer of the main graph and of the subgraphs)"""
+            ins = []
+            for k in range(len(values)):
+                sp = specs[decl[k][2]]
+                ins.append({"name": sp["name"], "dtype": ir.DataType[sp["dtype"]].value, "shape": sp["shape"],
+                            "b": inits[k]["b"] if sp["kind"] != "str" else "", "n": inits[k]["n"], "e": inits[k]["e"],
+                            "c": inits[k]["c"], "s": inits[k]["s"]})
+            dn = os.path.basename(case["dest"])
+            return {"m": "layout.st_unload", "inits": ins, "thr": case["thr"], "max": case["max"],
+                    "base": (os.path.splitext(dn)[0] if "." in dn else dn) + ".safetensors"}
+
+        if backend == "st":
+            # the hypotheses of C07_st_unload_values / C07_st_roundtrip_values, evaluated independently of the model
+            snap_names = [specs[decl[k][2]]["name"] for k in range(len(values))
+                          if before[k] is not None and specs[decl[k][2]]["kind"] != "str"]
+            res["info"]["hyp_names"] = len(set(snap_names)) == len(snap_names) and "__metadata__" not in snap_names
+            res["info"]["hyp_dtypes"] = not any(
+                before[k] is not None and specs[decl[k][2]]["dtype"] == "COMPLEX128" and nbytes[k] >= case["thr"]
+                for k in range(len(values)))
+            res["info"]["c128_inline"] = any(
+                before[k] is not None and specs[decl[k][2]]["dtype"] == "COMPLEX128" and nbytes[k] < case["thr"]
+                for k in range(len(values)))
 
         # ---- oracle 1b (on what serialization saw): a below-threshold external tensor must have been
         # replaced by an in-memory copy (it would otherwise keep pointing at its old data file)
@@ -599,6 +765,26 @@ def _run_case_in(case: dict, res: dict, fail, backend: str) -> dict:
         if raised is None and expect_fail == "reserved_name":
             fail("st-reserved-name:__metadata__", "save_safetensors accepted an initializer named __metadata__ (the header "
                  "key reserved for file metadata): the entry is skipped on read-back and the file is not a valid container")
+        if expect_fail == "st_keyerror" and raised is not None:
+            # COMPLEX128 at or above the threshold: KeyError, and nothing in the directory was created, replaced or
+            # removed (the shards written so far were staged in a temporary directory that is gone again)
+            if not isinstance(raised, KeyError):
+                fail(f"save-raises:st:{type(raised).__name__}:complex128", f"expected KeyError, got {type(raised).__name__}: {raised}")
+            tree_after = tree()
+            if tree_after != tree_before:
+                changed = sorted(set(tree_after) ^ set(tree_before)) + sorted(
+                    k_ for k_ in tree_after if k_ in tree_before and tree_after[k_] != tree_before[k_])
+                fail("st-keyerror:files-changed", "save_safetensors raised KeyError (COMPLEX128) but the directory "
+                     f"changed: {changed[:6]}", changed=changed[:20])
+            if sum(len(d["b"]) for d in inits) <= 600000:
+                res["reqs"].append(st_pos_request())
+                res["impl"].append({"names_ok": True, "ok": False,
+                                    "files": None if tree_after == tree_before else sorted(set(tree_after) - set(tree_before))})
+                res["what"].append("st-positions")
+        if backend == "st" and expect_fail in ("dup_name", "reserved_name") and isinstance(raised, ValueError):
+            res["reqs"].append(st_pos_request())
+            res["impl"].append({"names_ok": False})
+            res["what"].append("st-positions")
         if raised is None and expect_fail is not None:
             res["what"].append("raise-expected")
             res["reqs"].append({"m": "layout.pad5", "n": 0})
@@ -716,6 +902,28 @@ def _run_case_in(case: dict, res: dict, fail, backend: str) -> dict:
                 fail("st-container:names", "header entries over all files are not exactly the saved initializers",
                      got=sorted(seen_names), want=sorted(by_name))
             res["info"]["st_files"] = len(st_locs)
+        # K7 (safetensors, initializer POSITIONS: C07_st_unload_values / C07_st_roundtrip_values): the state of every
+        # position that serialization saw incl. (file, offset, length), the files, and (filled in after the reload
+        # below) what every position of the loaded model holds: external?, dtype, shape, bytes
+        st_pos_impl = None
+        if backend == "st" and raised is None and mid is not None and sum(len(d["b"]) for d in inits) <= 600000:
+            def mid_full(k):
+                t = mid[k]
+                if t is before[k]:
+                    return "S"
+                if isinstance(t, ir.ExternalTensor):
+                    return [os.fspath(t.location), t.offset, t.length]
+                return "M"
+
+            locs7: list = []
+            for k in range(len(values)):
+                if mid[k] is not before[k] and isinstance(mid[k], ir.ExternalTensor) and os.fspath(mid[k].location) not in locs7:
+                    locs7.append(os.fspath(mid[k].location))
+            st_pos_impl = {"names_ok": True, "ok": True, "consts": [mid_full(k) for k in range(len(values))],
+                           "files": [[loc, _hex(open(os.path.join(base_dir, loc), "rb").read())] for loc in locs7]}
+            res["reqs"].append(st_pos_request())
+            res["impl"].append(st_pos_impl)
+            res["what"].append("st-positions")
         # the save as an effect sequence: the model computes the re-pointing itself (fresh id 1000+k for the
         # object created for position k) from the initializer list; compared with the store observed at the
         # moment the failure surfaced (or at serialization) and after the call
@@ -799,6 +1007,12 @@ def _run_case_in(case: dict, res: dict, fail, backend: str) -> dict:
                     if off < prev_end:
                         fail("layout:order-or-overlap", f"range {j} of {loc} starts at {off} before previous end {prev_end}",
                              ranges=[r[:2] for r in ranges])
+                    if factor and j > 0:
+                        # how often the two alignment clauses of C07_aligned are evaluated on a NON-FIRST tensor
+                        # smaller than the factor (the first tensor of a file is at 0 whatever the code does)
+                        key_ = "aligned_small_nonfirst" if ln > case["athr"] else "dense_under_athr_nonfirst"
+                        if ln < factor:
+                            res["info"][key_] = res["info"].get(key_, 0) + 1
                     if factor and ln > case["athr"]:
                         if off % factor or off - prev_end >= factor:
                             fail("layout:alignment", f"offset {off} (prev end {prev_end}) not the next multiple of {factor}",
@@ -881,16 +1095,25 @@ def _run_case_in(case: dict, res: dict, fail, backend: str) -> dict:
             fail(f"reload-names:{backend}", "initializer names/order after reload differ",
                  got=[(gi, v.name) for gi, v in loaded])
             return res
+        loaded_obs: list = [None] * len(values)
+        if st_pos_impl is not None:
+            st_pos_impl["loaded"] = loaded_obs
         for (gi, v), k in zip(loaded, dk):
             si = decl[k][2]
             s = specs[si]
             t = v.const_value
             if s["kind"] == "str":
+                loaded_obs[k] = [isinstance(t, ir.ExternalTensor), t.dtype.value, list(t.shape.numpy()), ""]
                 continue
             if t.dtype.name != s["dtype"] or list(t.shape.numpy()) != list(s["shape"]):
                 fail(f"reload-dtype-shape:{backend}", "dtype/shape differ after reload", tensor=s)
+                loaded_obs[k] = [isinstance(t, ir.ExternalTensor), t.dtype.value, list(t.shape.numpy()), None]
                 continue
             ext = isinstance(t, ir.ExternalTensor)
+            # the C07 clause on VALUES: external exactly when at/above (st) resp. above (raw) the threshold
+            if backend == "st" and ext != (nbytes[k] >= case["thr"]):
+                fail("reload-external-iff:st", f"initializer {k} ({nbytes[k]} bytes, threshold {case['thr']}) is "
+                     f"{'external' if ext else 'inline'} in the loaded model", tensor=s)
             try:
                 got = t.tobytes()
             except BaseException as e:  # noqa: BLE001
@@ -900,6 +1123,7 @@ def _run_case_in(case: dict, res: dict, fail, backend: str) -> dict:
                 got = None
             if got is not None and bytes(got) != datas[si]:
                 fail(f"reload-bytes:{backend}:{s['kind']}", "bytes differ after reload", tensor=s)
+            loaded_obs[k] = [ext, t.dtype.value, list(t.shape.numpy()), _hex(bytes(got)) if got is not None else None]
             if got is not None and ext:
                 for loc, off, ln, kk, img in k4_reads:
                     if kk == k:
@@ -981,6 +1205,8 @@ def run_debug_case(case: dict) -> dict:
                     ir.save(model, os.path.join(tmp, "m.onnx"), external_data="m.data", size_threshold_bytes=case["thr"])
                 else:
                     ir.save_safetensors(model, os.path.join(tmp, "m.onnx"), size_threshold_bytes=case["thr"])
+            except _Timeout:
+                raise
             except BaseException as e:  # noqa: BLE001
                 raised = e
             finally:
@@ -1007,6 +1233,135 @@ def run_debug_case(case: dict) -> dict:
     finally:
         ir.DEBUG = old_debug
     return res
+
+
+def run_async_case(case: dict) -> dict:
+    """ir.save / save_safetensors with an ASYNCHRONOUS exception delivered inside the `finally` restore loop after
+    `cut` completed assignments (a trace function raises KeyboardInterrupt on entry of the `const_value` setter for
+    the (cut+1)-th restoring assignment; the setter's only effect is one attribute store, so this covers every
+    delivery point inside the loop).  The try block is left normally or by an injected failure.  Compared with
+    `saveRunAsync`; the store afterwards is also checked against the statement of C07_restore_async directly."""
+    import logging
+    import sys
+
+    import onnx_ir as ir
+    from onnx_ir import serde
+
+    logging.getLogger("onnx_ir").setLevel(logging.ERROR)
+    res = {"case": case, "fails": [], "reqs": [], "impl": [], "what": [], "info": {}, "kind": "async"}
+    backend = case["backend"]
+    with tempfile.TemporaryDirectory(prefix="c07a-", dir=_run_dir()) as tmp:
+        tensors, flags = [], []
+        for i, (n, kind) in enumerate(zip(case["sizes"], case["kinds"])):
+            data = bytes((5 * i + j) % 251 for j in range(n))
+            if kind == "none":
+                tensors.append(None)
+            elif kind == "str":
+                tensors.append(ir.StringTensor([b"s" * n], shape=ir.Shape([1]), name=f"w{i}"))
+            elif kind == "ext":
+                with open(os.path.join(tmp, f"src{i}.bin"), "wb") as f:
+                    f.write(data)
+                tensors.append(ir.ExternalTensor(f"src{i}.bin", 0, n, ir.DataType.UINT8, shape=ir.Shape([n]),
+                                                 name=f"w{i}", base_dir=tmp))
+            else:
+                tensors.append(ir.Tensor(np.frombuffer(data, dtype=np.uint8), name=f"w{i}"))
+        model, vs = _simple_model(tensors)
+        nb = [(t.nbytes if t is not None else 0) for t in tensors]
+        inits = [[nb[k], int(isinstance(t, ir.ExternalTensor)), int(t is not None), int(case["kinds"][k] == "str")]
+                 for k, t in enumerate(tensors)]
+        orig = {id(v): t for v, t in zip(vs, tensors)}
+        setter_code = type(vs[0]).const_value.fset.__code__
+        state = {"restores": 0, "fired": False}
+        cut = case["cut"]
+
+        def tracer(frame, event, arg):
+            if event == "call" and frame.f_code is setter_code:
+                loc = frame.f_locals
+                slf = loc.get("self")
+                if id(slf) in orig and loc.get("value") is orig[id(slf)]:
+                    if cut is not None and state["restores"] == cut and not state["fired"]:
+                        state["fired"] = True
+                        raise KeyboardInterrupt("injected: asynchronous exception inside the restore loop")
+                    state["restores"] += 1
+            return None
+
+        snap: dict = {}
+        orig_serialize = serde.serialize_model
+
+        def spy(m, *a, **kw):
+            snap.setdefault("mid", [v.const_value for v in vs])
+            if case["fail"] == "serialize":
+                raise RuntimeError("injected: serialization fails")
+            return orig_serialize(m, *a, **kw)
+
+        kwargs = {"size_threshold_bytes": case["thr"]}
+        if case["fail"] == "format":
+            kwargs["format"] = "bogus"
+        raised = None
+        serde.serialize_model = spy
+        old_trace = sys.gettrace()
+        sys.settrace(tracer)
+        try:
+            if backend == "raw":
+                ir.save(model, os.path.join(tmp, "m.onnx"), external_data="m.data", **kwargs)
+            else:
+                ir.save_safetensors(model, os.path.join(tmp, "m.onnx"), **kwargs)
+        except _Timeout:
+            raise
+        except BaseException as e:  # noqa: BLE001
+            raised = e
+        finally:
+            sys.settrace(old_trace)
+            serde.serialize_model = orig_serialize
+        after = [v.const_value for v in vs]
+        mid = snap.get("mid")
+
+        def canon(objs):
+            return [None if t is None else (k if t is tensors[k] else 1000 + k) for k, t in enumerate(objs)]
+
+        fin = canon(after)
+        phase = {"none": "none", "serialize": "serialize", "format": "protoSave"}[case["fail"]]
+        res["reqs"].append({"m": "layout.save_run_async", "backend": backend, "inits": inits, "thr": case["thr"],
+                            "fresh": 1000, "store": canon(tensors), "phase": phase, "occ": 0, "cut": cut})
+        impl = {"fin": fin, "raised": state["fired"]}
+        if mid is not None:
+            impl["mid"] = canon(mid)
+        res["impl"].append(impl)
+        res["what"].append("restore-async")
+        # the statement of C07_restore_async on the real objects: the remembered values (raw: every initializer
+        # value; safetensors: those holding a non-string tensor) in declaration order; the first `cut` hold their
+        # original object, every other value holds what serialization saw
+        snapshot = [k for k in range(len(vs)) if backend == "raw" or (tensors[k] is not None and case["kinds"][k] != "str")]
+        n_eff = len(snapshot) if cut is None else min(cut, len(snapshot))
+        want_raise = cut is not None and cut < len(snapshot)
+        if state["fired"] != want_raise or (want_raise and not isinstance(raised, KeyboardInterrupt)):
+            res["fails"].append({"signature": f"restore-async:{backend}:delivery",
+                                 "what": f"asynchronous exception fired={state['fired']} raised={type(raised).__name__ if raised else None}, "
+                                         f"expected interruption={want_raise} (snapshot of {len(snapshot)}, cut {cut})", "case": case})
+        if mid is not None:
+            for j, k in enumerate(snapshot):
+                want = tensors[k] if j < n_eff else mid[k]
+                if after[k] is not want:
+                    res["fails"].append({"signature": f"restore-async:{backend}:{'prefix-not-restored' if j < n_eff else 'suffix-touched'}",
+                                         "what": f"after an asynchronous exception following {n_eff} restores value {k} "
+                                                 f"(snapshot position {j}) holds an unexpected object", "case": case})
+                    break
+        if not want_raise and any(a is not b for a, b in zip(after, tensors)):
+            res["fails"].append({"signature": f"restore:{backend}:async-family-no-interruption",
+                                 "what": "no asynchronous exception was delivered, yet the model is not restored", "case": case})
+        res["info"] = {"raised": type(raised).__name__ if raised else None, "interrupted": state["fired"],
+                       "restored_all": all(a is b for a, b in zip(after, tensors)),
+                       "left_repointed": sum(1 for a, b in zip(after, tensors) if a is not b)}
+    return res
+
+
+def gen_async_case(rng: random.Random) -> dict:
+    n = rng.choice([1, 2, 3, 4, 5, 6])
+    kinds = [rng.choice(["mem", "mem", "mem", "ext", "none", "str"]) for _ in range(n)]
+    sizes = [rng.choice([0, 1, 7, 64, 300]) for _ in range(n)]
+    return {"family": "async", "backend": rng.choice(["raw", "raw", "st"]), "sizes": sizes, "kinds": kinds,
+            "thr": rng.choice([0, 0, 8, 64, 100, 10**6]), "fail": rng.choice(["none", "none", "serialize", "format"]),
+            "cut": rng.choice([None, 0, 0, 1, 1, 2, 3, 5, 9])}
 
 
 _SEQ_BASES = ["A.data", "B.data"]
@@ -1111,7 +1466,7 @@ def run_seq_case(case: dict) -> dict:
                     disk_refs, disk_stale = snapshot(ir.load(path)), set()
                     written = {tuple(r[1:4]) for r in disk_refs if r[0] == "E"}
                     stale |= {k for k, r in enumerate(before) if r[0] == "E" and tuple(r[1:4]) in written}
-                    ops_done.append({"op": "save_st"})
+                    ops_done.append({"op": "save_st", "base": base_id("m.safetensors"), "thr": op["thr"], "max": op["max"]})
                 elif kind == "load":
                     if not has_disk:
                         continue
@@ -1140,6 +1495,8 @@ def run_seq_case(case: dict) -> dict:
                         continue
                     v.const_value = ir.external_data.convert_tensors_from_external([v.const_value])[0]
                     ops_done.append({"op": "convert", "k": op["k"] % len(V)})
+            except _Timeout:
+                raise
             except BaseException as e:  # noqa: BLE001
                 res["fails"].append({"signature": (f"sequence:st:reshard-overwrites-source:{type(e).__name__}" if kind == "save_st"
                                                    else f"sequence:{kind}:raised:{type(e).__name__}"),
@@ -1164,11 +1521,17 @@ def run_seq_case(case: dict) -> dict:
                                              "case": {**case, "ops_done": ops_done}})
                     vals.append(_hex(V[k]))
             steps.append({"mem": snap, "vals": vals})
-        if all_raw and ops_done:
-            res["reqs"].append({"m": "layout.seq", "vals": [_hex(b) for b in V], "ops": ops_done})
+        if ops_done:
+            # both backends are instances of the sequence model (C07_rawBackend_ok, C07_stBackend_ok): every
+            # generated sequence, mixed ones included, is compared step by step
+            res["reqs"].append({"m": "layout.seq", "vals": [_hex(b) for b in V], "ops": ops_done,
+                                "metas": [{"name": f"w{i}", "dtype": ir.DataType.UINT8.value, "shape": [len(b)]}
+                                          for i, b in enumerate(V)]})
             res["impl"].append({"steps": steps})
             res["what"].append("sequence")
+        kinds_done = {o["op"] for o in ops_done}
         res["info"] = {"ops": [o["op"] for o in ops_done], "obs": obs, "all_raw": all_raw,
+                       "mixed": "save_st" in kinds_done and bool(kinds_done & {"save", "unload"}),
                        "stale_seen": any(r == ["S"] for st_ in steps for r in st_["mem"])}
     return res
 
@@ -1191,13 +1554,13 @@ def gen_seq_case(rng: random.Random) -> dict:
                         {"op": "save_st", "thr": 0, "max": 3 * z}, {"op": "load"}]}
     n = rng.choice([1, 2, 3, 4, 6])
     sizes = [rng.choice([1, 7, 50, 64, 100, 300]) for _ in range(n)]
-    use_st = rng.random() < 0.3
+    use_st = rng.random() < 0.5
     ops, fresh = [], 0
     for _ in range(rng.choice([2, 3, 4, 5, 6, 7])):
         r = rng.random()
         if r < 0.45:
             mx = rng.choice([None, None, None, 100, 300, max(1, sum(sizes) // 2)])
-            if use_st and rng.random() < 0.7:
+            if use_st and rng.random() < 0.6:
                 ops.append({"op": "save_st", "thr": rng.choice([0, 8, 60, 64, 101]), "max": mx})
             else:
                 if mx is None:
@@ -1221,18 +1584,13 @@ def gen_seq_case(rng: random.Random) -> dict:
     return {"family": "seq", "sizes": sizes, "ops": ops}
 
 
-def run_deep_chunk(cases: list[dict]) -> list[dict]:
-    out = []
-    for c in cases:
-        try:
-            out.append(run_debug_case(c) if c["family"] == "debug" else run_seq_case(c))
-        except BaseException:  # noqa: BLE001 - harness problem: reported as a disagreement
-            import traceback
+def _run_deep_case(c: dict) -> dict:
+    fam = c["family"]
+    return run_debug_case(c) if fam == "debug" else run_async_case(c) if fam == "async" else run_seq_case(c)
 
-            out.append({"case": c, "fails": [], "reqs": [{"m": "layout.pad5", "n": 0}],
-                        "impl": [{"r": "harness error " + traceback.format_exc()[-800:]}], "what": ["harness"],
-                        "info": {}, "kind": c["family"]})
-    return out
+
+def run_deep_chunk(cases: list[dict]) -> list[dict]:
+    return _guarded_chunk(_run_deep_case, cases, kind_of=lambda c: c["family"])
 
 
 def _compare_deep(ctx: Ctx, results: list[dict]) -> None:
@@ -1247,9 +1605,16 @@ def _compare_deep(ctx: Ctx, results: list[dict]) -> None:
                      raised=info.get("raised"))
             if info.get("hyp") is False and info.get("restored") is False:
                 ctx.count("observation=D430")
+        elif res["kind"] == "async":
+            ctx.case(case, nontrivial=True, sample={**case, "result": info}, family="restore-async", backend=case["backend"],
+                     async_cut=case["cut"], async_fail=case["fail"], async_interrupted=info.get("interrupted"),
+                     async_left_repointed=min(info.get("left_repointed", 0), 3), raised=info.get("raised"))
+            if info.get("interrupted") and info.get("left_repointed"):
+                ctx.count("observation=D435")
         else:
             ctx.case(case, nontrivial=True, sample={**case, "result": info}, family="sequence",
-                     seq_len=len(info.get("ops", [])), seq_all_raw=info.get("all_raw"), seq_stale_seen=info.get("stale_seen"),
+                     seq_len=len(info.get("ops", [])), seq_all_raw=info.get("all_raw"), seq_mixed=info.get("mixed"),
+                     seq_stale_seen=info.get("stale_seen"),
                      seq_template=case.get("template"))
             for o in info.get("ops", []):
                 ctx.count(f"seq_op={o}")
@@ -1306,17 +1671,7 @@ def _clean_stale_run_dirs(max_age_s: int = 3600) -> None:
 
 
 def run_chunk(cases: list[dict]) -> list[dict]:
-    out = []
-    for c in cases:
-        try:
-            out.append(run_case(c))
-        except BaseException as e:  # noqa: BLE001 - harness problem: reported as a disagreement
-            import traceback
-
-            out.append({"case": c, "fails": [], "reqs": [{"m": "layout.pad5", "n": 0}],
-                        "impl": [{"r": "harness error " + traceback.format_exc()[-800:]}], "what": ["harness"],
-                        "info": {"raised": type(e).__name__}})
-    return out
+    return _guarded_chunk(run_case, cases)
 
 
 # ------------------------------------------------------------------------------------------
@@ -1332,8 +1687,8 @@ _TYPED = ("INT64", "UINT32", "UINT64", "FLOAT16", "BFLOAT16", "INT32", "INT8", "
 def gen_tensor(rng: random.Random, i: int, ext_name: str, backend: str, allow_sub: bool = True) -> dict:
     kind = rng.choice(KINDS)
     dtype = rng.choice(ALL_DTYPES)
-    if backend == "st" and dtype == "COMPLEX128":
-        dtype = "COMPLEX64"  # safetensors has no 128-bit complex type
+    if backend == "st" and dtype == "COMPLEX128" and rng.random() < 0.5:
+        dtype = "COMPLEX64"  # safetensors has no 128-bit complex type (gen_case keeps the others below the threshold)
     if kind == "packed":
         dtype = rng.choice(_SUB4 + _SUB2)
     if kind == "proto_typed":
@@ -1421,6 +1776,11 @@ def gen_case(rng: random.Random, backend: str) -> dict:
     if backend == "st":
         case.update(al=None, athr=0, workers=None)
         case["ext"] = None
+        # COMPLEX128 has no entry in the save table: at or above the threshold the save raises KeyError (the
+        # st_keyerror family of gen_fail_case); here such tensors only occur BELOW the threshold, where they stay inline
+        for s in specs:
+            if s["dtype"] == "COMPLEX128" and s["kind"] != "str" and len(expected_bytes(s)) >= thr:
+                s["dtype"] = "COMPLEX64"
     # the sharded writer refuses to touch an existing file, so a source tensor living in the destination
     # file is only meaningful for the single-file raw save
     for s in specs:
@@ -1446,7 +1806,9 @@ def gen_fail_case(rng: random.Random, backend: str) -> dict:
     mode = rng.choice(["lazy_raises", "serialize", "format", "validate", "early", "exists", "missing_ext",
                        "small_lazy_raises", "abs_path"])
     if backend == "st" and mode in ("validate", "early", "exists", "abs_path"):
-        mode = rng.choice(["lazy_raises", "serialize", "format", "dup_name", "missing_ext", "reserved_name"])
+        mode = rng.choice(["lazy_raises", "serialize", "format", "dup_name", "missing_ext", "reserved_name", "st_keyerror"])
+    elif backend == "st" and rng.random() < 0.12:
+        mode = "st_keyerror"
     # external sources in the destination file would be invalidated; keep them out of failing saves? no: keep.
     i = len(specs)
     if mode == "lazy_raises":
@@ -1465,6 +1827,23 @@ def gen_fail_case(rng: random.Random, backend: str) -> dict:
         # the header key `__metadata__` is reserved by the container format (D434): rejected up front
         specs.append({"kind": "mem", "dtype": rng.choice(["UINT8", "FLOAT"]), "shape": [rng.choice([3, 80])], "seed": 7,
                       "name": "__metadata__", "graph": rng.choice([0, 0, 2])})
+    elif mode == "st_keyerror":
+        # COMPLEX128 at or above the threshold (D-less: the code raises KeyError by design): in any graph, any position,
+        # with files of the same names already in the directory
+        sp = {"kind": rng.choice(["mem", "mem", "lazy", "proto", "ext_other"]), "dtype": "COMPLEX128",
+              "shape": rng.choice([[1], [3], [2, 2]]), "seed": 9, "name": f"t{i}", "graph": rng.choice([0, 0, 1, 2])}
+        if sp["kind"] == "ext_other":
+            sp["loc"], sp["gap"] = "other.bin", 0
+        specs.insert(rng.randrange(len(specs) + 1), sp)
+        for s in specs:
+            if s.get("dup_of") is not None:
+                s.pop("dup_of")  # positions moved: no shared objects in this family
+                s["seed"] = s["seed"] + 1
+        case["thr"] = min(case["thr"], 16 * _prod(sp["shape"]))
+        fix_external_sources(specs)
+        dn = os.path.basename(case["dest"])
+        stb = (os.path.splitext(dn)[0] if "." in dn else dn)
+        case["preexisting"] = [stb + ".safetensors", stb + "-00001-of-00002.safetensors", stb + ".safetensors.index.json"]
     elif mode == "abs_path":
         case["ext"] = "<ABS>"  # an absolute path into the (writable) scratch directory: must be rejected up front
     elif mode == "validate":
@@ -1480,6 +1859,12 @@ def gen_fail_case(rng: random.Random, backend: str) -> dict:
         specs.append({"kind": "ext_missing", "dtype": "UINT8", "shape": [4], "seed": 5, "name": f"t{i}", "graph": 0,
                       "loc": "gone.bin", "pre": 0})
         case["thr"] = max(case["thr"], 5)
+    if backend == "st" and mode != "st_keyerror":
+        # the threshold may have been lowered by the mode: keep COMPLEX128 below it (see gen_case)
+        for s in specs:
+            if s["dtype"] == "COMPLEX128" and s["kind"] != "str" and len(expected_bytes(s)) >= case["thr"]:
+                s["dtype"] = "COMPLEX64"
+        fix_external_sources(specs)
     case["fail"] = mode
     return case
 
@@ -1489,6 +1874,35 @@ def gen_fail_case(rng: random.Random, backend: str) -> dict:
 
 
 def part_a(ctx: Ctx) -> None:
+    """Part A under the guard: a pure function of a mutated tree that loops becomes the failure
+    `nontermination:part-a:<stream>` (the rest of part A is skipped), never a hung check."""
+    stream = ["start"]
+    try:
+        with alarm_guard(_PART_A_CPU_S, _PART_A_WALL_S, "nontermination:part-a"):
+            _part_a_inner(ctx, stream)
+    except _Timeout:
+        ctx.fail(f"nontermination:part-a:{stream[0]}", "a pure layout function did not return within "
+                 f"{_PART_A_CPU_S}s CPU / {_PART_A_WALL_S}s wall", {"stream": stream[0]})
+    finally:
+        _GUARD["fired"] = None
+
+
+def _real(fn, *a, **kw):
+    """A call of real code on stub arguments: an exception becomes the value ["raised", type] (compared with the
+    model's answer, hence a disagreement), never a harness crash."""
+    try:
+        return fn(*a, **kw)
+    except _Timeout:
+        raise
+    except Exception as e:  # noqa: BLE001
+        return ["raised", type(e).__name__]
+
+
+def _is_raised(r) -> bool:
+    return isinstance(r, list) and len(r) == 2 and r[0] == "raised"
+
+
+def _part_a_inner(ctx: Ctx, stream: list) -> None:
     from onnx_ir import _safetensors as st
     from onnx_ir import _shard_filename as sf
     from onnx_ir import external_data as ed
@@ -1506,10 +1920,13 @@ def part_a(ctx: Ctx) -> None:
         for size in (0, 1, 16, 17, 5000):
             for al in (None, 1, 4096, 4097, 8192, 65536, 100000):
                 for athr in (0, 16, 1 << 20):
+                    stream[0] = "_align_offset"
                     reqs.append({"m": "layout.align", "cur": cur, "size": size, "al": al, "athr": athr})
-                    r = ed._align_offset(cur, size, al, athr)
+                    r = _real(ed._align_offset, cur, size, al, athr)
                     impls.append(r)
                     cases.append(("align", [cur, size, al, athr]))
+                    if _is_raised(r) or not isinstance(r, int):
+                        continue
                     if r < cur or (al is not None and size > athr and (r % max(4096, al) or r - cur >= max(4096, al))) \
                             or ((al is None or size <= athr) and r != cur):
                         ctx.fail("align-offset", "aligned offset not the next multiple / not dense", [cur, size, al, athr, r])
@@ -1521,34 +1938,48 @@ def part_a(ctx: Ctx) -> None:
         al = rng.choice([None, 1, 4096, 8192, 65536, rng.randrange(1, 200000)])
         athr = rng.choice([0, 1, 16, 100, 4096, 1 << 20])
         # running-offset loop of convert_tensors_to_external
+        stream[0] = "_compute_external_data_info"
         infos, cur = [], 0
         for s in sizes:
-            inf = ed._compute_external_data_info(T(s), cur, al, athr)
+            inf = _real(ed._compute_external_data_info, T(s), cur, al, athr)
+            if _is_raised(inf):
+                infos = inf
+                break
             infos.append([inf.offset, inf.length])
             cur = inf.offset + inf.length
         reqs.append({"m": "layout.infos", "sizes": sizes, "al": al, "athr": athr})
         impls.append(infos)
         cases.append(("infos", [sizes, al, athr]))
         mx = rng.choice([1, 7, 100, 4096, 5000, 70000, max(1, sum(sizes)), max(1, sum(sizes) // 2)])
-        sh = ed._shard_tensors([T(s) for s in sizes], mx, al, athr)
-        groups = [[t.nbytes for t in g] for g in sh]
+        stream[0] = "external_data._shard_tensors"
+        sh = _real(ed._shard_tensors, [T(s) for s in sizes], mx, al, athr)
+        groups = sh if _is_raised(sh) else [[t.nbytes for t in g] for g in sh]
         reqs.append({"m": "layout.shard_raw", "sizes": sizes, "max": mx, "al": al, "athr": athr})
         impls.append(groups)
         cases.append(("shard_raw", [sizes, mx, al, athr]))
-        if [x for g in groups for x in g] != sizes or (sizes and any(not g for g in groups)):
-            ctx.fail("shard-raw:partition", "shards do not partition the tensors in order", [sizes, mx, al, athr, groups])
-        for g in groups:
-            c = 0
-            for s in g:
-                c = ed._align_offset(c, s, al, athr) + s
-            if c > mx and len(g) != 1:
-                ctx.fail("shard-raw:limit", "a multi-tensor shard exceeds the limit", [sizes, mx, al, athr, groups])
+        if not _is_raised(sh):
+            if [x for g in groups for x in g] != sizes or (sizes and any(not g for g in groups)):
+                ctx.fail("shard-raw:partition", "shards do not partition the tensors in order", [sizes, mx, al, athr, groups])
+            for g in groups:
+                # the limit clause with the offsets of the layout the code is specified to write (independent of
+                # _align_offset: next multiple of max(4096, alignment) for tensors above align_threshold)
+                c = 0
+                for s in g:
+                    if al is not None and s > athr:
+                        f_ = max(4096, al)
+                        c = (c + f_ - 1) // f_ * f_
+                    c += s
+                if c > mx and len(g) != 1:
+                    ctx.fail("shard-raw:limit", "a multi-tensor shard exceeds the limit", [sizes, mx, al, athr, groups])
         mxs = rng.choice([None, mx])
-        sh = st._shard_tensors([T(s) for s in sizes], mxs)
-        groups = [[t.nbytes for t in g] for g in sh]
+        stream[0] = "_safetensors._shard_tensors"
+        sh = _real(st._shard_tensors, [T(s) for s in sizes], mxs)
+        groups = sh if _is_raised(sh) else [[t.nbytes for t in g] for g in sh]
         reqs.append({"m": "layout.shard_st", "sizes": sizes, "max": mxs})
         impls.append(groups)
         cases.append(("shard_st", [sizes, mxs]))
+        if _is_raised(sh):
+            continue
         if [x for g in groups for x in g] != sizes:
             ctx.fail("shard-st:partition", "safetensors shards do not partition the tensors in order", [sizes, mxs, groups])
         if mxs is not None:
@@ -1569,12 +2000,16 @@ def part_a(ctx: Ctx) -> None:
         "st_to_ir": [[k, v.value] for k, v in st._SAFETENSORS_DTYPE_TO_IR_DTYPE.items()],
     }
     probe = ir.ExternalTensor("x.safetensors", 0, 1, ir.DataType.UINT8, shape=ir.Shape([1]), name="n", base_dir="")
+    stream[0] = "_migrate_tensor_shape_dtype"
     mig = []
     for d in ir.DataType:
-        r = st._migrate_tensor_shape_dtype(types.SimpleNamespace(dtype=d, shape=ir.Shape([3])), probe)
+        r = _real(st._migrate_tensor_shape_dtype, types.SimpleNamespace(dtype=d, shape=ir.Shape([3])), probe)
+        if _is_raised(r):
+            mig = r
+            break
         if r is not probe:
             mig.append(d.value)
-    impl_tabs["migrated"] = sorted(mig)
+    impl_tabs["migrated"] = mig if _is_raised(mig) else sorted(mig)
     tabs_cmp = dict(tabs, migrated=sorted(tabs.get("migrated", [])))
     for key in ("ir_to_name", "st_to_ir", "migrated"):
         ctx.case(["st-table", key], nontrivial=True, fn="st-table")
@@ -1618,6 +2053,7 @@ def part_a(ctx: Ctx) -> None:
     import ctypes
 
     sfl = st._import_safetensors()
+    stream[0] = "st_file"
     with tempfile.TemporaryDirectory(prefix="c07-stf-", dir=_run_dir()) as td:
         for it in range(ctx.pick(150, 1500)):
             names = rng.sample(weird, rng.randrange(0, 7))
@@ -1629,17 +2065,26 @@ def part_a(ctx: Ctx) -> None:
                 data = bytearray(rng.randrange(256) for _ in range(nb))
                 view = (ctypes.c_char * len(data)).from_buffer(data)
                 refs.append((data, view))
-                tspecs[nm] = sfl.TensorSpec(dtype=st._IR_DTYPE_TO_SAFETENSORS_DTYPE[dt],
-                                            shape=st._get_tensor_storage_shape(types.SimpleNamespace(
-                                                dtype=dt, nbytes=nb, shape=ir.Shape(shape))),
-                                            data_ptr=ctypes.addressof(view), data_len=len(data))
+                sshape = _real(st._get_tensor_storage_shape, types.SimpleNamespace(dtype=dt, nbytes=nb, shape=ir.Shape(shape)))
                 tens.append({"name": nm, "dtype": dt.value, "shape": shape, "b": bytes(data).hex()})
+                if _is_raised(sshape):
+                    tspecs = sshape
+                    break
+                tspecs[nm] = sfl.TensorSpec(dtype=st._IR_DTYPE_TO_SAFETENSORS_DTYPE[dt], shape=sshape,
+                                            data_ptr=ctypes.addressof(view), data_len=len(data))
             pth = os.path.join(td, f"{it}.safetensors")
-            sfl.serialize_file(tspecs, pth)
             st_reqs.append({"m": "layout.st_file", "tensors": tens})
-            st_impl.append(open(pth, "rb").read().hex())
             st_cases.append([[t["name"], t["dtype"], t["shape"]] for t in tens])
-            os.remove(pth)
+            try:
+                if _is_raised(tspecs):
+                    raise RuntimeError(f"_get_tensor_storage_shape raised {tspecs[1]}")
+                sfl.serialize_file(tspecs, pth)
+                st_impl.append(open(pth, "rb").read().hex())
+                os.remove(pth)
+            except _Timeout:
+                raise
+            except Exception as e:  # noqa: BLE001 - e.g. a storage shape the library rejects
+                st_impl.append(f"raised {type(e).__name__}: {e}"[:200])
     for case_, impl_, out_ in zip(st_cases, st_impl, lean_batch_parallel(st_reqs)):
         ctx.case(["st_file", case_, impl_[:64]], nontrivial=bool(case_), fn="st_file", st_file_tensors=len(case_))
         if out_.get("file") != impl_ or not out_.get("ok"):
@@ -1652,8 +2097,9 @@ def part_a(ctx: Ctx) -> None:
     idxs = [(1, 1), (1, 2), (2, 2), (7, 12), (99999, 100000), (100000, 100000), (123456, 1234567)]
     for d, s, (i, t), sc in itertools.product(dirs, stems, idxs, [None, 1, 0, 2]):
         base = d + s
+        stream[0] = "get_shard_filename"
         reqs.append({"m": "layout.filename", "base": base, "idx": i, "total": t, "sc": sc})
-        impls.append(sf.get_shard_filename(base, i, t, suffix_count=sc))
+        impls.append(_real(sf.get_shard_filename, base, i, t, suffix_count=sc))
         cases.append(("filename", [base, i, t, sc]))
     for d, s0 in itertools.product(dirs + ["a//b///", "///a"], stems + ["a/", "a.b/", "x/y.z"]):
         pth = d + s0
@@ -1673,7 +2119,9 @@ def part_a(ctx: Ctx) -> None:
     for d, s, sc in itertools.product(dirs, stems, [None, 1]):
         base = d + s
         for t in (2, 3, 12):
-            names = [sf.get_shard_filename(base, i, t, suffix_count=sc) for i in range(1, t + 1)]
+            names = [_real(sf.get_shard_filename, base, i, t, suffix_count=sc) for i in range(1, t + 1)]
+            if any(_is_raised(nm) for nm in names):
+                continue  # reported by the correspondence above
             if len(set(names)) != t:
                 ctx.fail("shard-names:collision", "distinct shard indices give the same file name", [base, t, sc])
             if any(os.path.split(nm)[0] != os.path.split(base)[0] for nm in names):
@@ -1710,8 +2158,16 @@ def _compare(ctx: Ctx, results: list[dict]) -> None:
                  nested=bool(case.get("nested")), sched=case.get("sched") is not None,
                  inflight=_bucket(case.get("inflight")), callback=bool(case.get("callback")),
                  chunk=case.get("chunk"), bare=bool(case.get("bare")),
+                 grid=case.get("grid"), athr=_bucket(case.get("athr")) if case.get("al") else None,
+                 hyp_st_names_ok=info.get("hyp_names"), hyp_st_dtypes_ok=info.get("hyp_dtypes"),
+                 st_complex128_inline=info.get("c128_inline"),
                  ext_path=("unnormalised" if case.get("ext") and os.path.normpath(case["ext"]) != case["ext"] else "normal"),
                  max_nbytes=_bucket(max([len(expected_bytes(s)) for s in case["tensors"] if s["kind"] != "str"] or [0])))
+        for key_ in ("aligned_small_nonfirst", "dense_under_athr_nonfirst"):
+            if info.get(key_):
+                ctx.count(f"C07_aligned:{key_}", info[key_])
+                if case.get("grid") == "align-threshold":
+                    ctx.count(f"C07_aligned:{key_}:grid-athr{case['athr']}", info[key_])
         for s in case["tensors"]:
             ctx.count(f"tensor_kind={s['kind']}")
             ctx.count(f"dtype={s['dtype']}")
@@ -1789,6 +2245,21 @@ def grid_cases() -> list[dict]:
         if workers and workers > 1:
             c["sched"] = [3, 1, 0, 2, 7, 5, 6, 4, 9, 8, 15, 11, 13, 10, 12, 14]
         cases.append(c)
+    # align_threshold in {0, 1} with alignment set (0 = "align every external tensor"; seeded change C07-q2 swallowed the
+    # 0 with `align_threshold or DEFAULT`): small tensors that are NOT the first of their data file, single file and
+    # sharded (a 5000-byte limit puts two 4096-aligned small tensors into a shard), serial and concurrent.  The layout
+    # oracle evaluates both clauses of C07_aligned on every recorded range (multiple of the factor with less than one
+    # factor of padding when nbytes > align_threshold, dense otherwise) and the layout model runs on each.
+    small = [("mem", "FLOAT", [64]), ("mem", "UINT8", [1]), ("lazy", "INT8", [5]), ("mem", "UINT8", [2]),
+             ("packed", "INT4", [7, 9]), ("proto", "UINT8", [1]), ("mem", "BOOL", [3])]
+    for al, athr, mx, workers in itertools.product([1, 4096, 8192], [0, 1], [None, 5000, 1 << 40], [None, 4]):
+        specs = [{"kind": k, "dtype": d, "shape": sh, "seed": 300 + i, "name": f"t{i}", "graph": [0, 0, 1, 0, 2, 0, 0][i]}
+                 for i, (k, d, sh) in enumerate(small)]
+        c = {"backend": "raw", "tensors": specs, "thr": 0, "al": al, "athr": athr, "max": mx, "workers": workers,
+             "dest": "model.onnx", "ext": "model.data", "callback": False, "subgraphs": True, "grid": "align-threshold"}
+        if workers and workers > 1:
+            c["sched"] = [3, 1, 0, 2, 7, 5, 6, 4, 9, 8, 15, 11, 13, 10, 12, 14]
+        cases.append(c)
     return cases
 
 
@@ -1815,7 +2286,7 @@ def _run(ctx: Ctx) -> None:
     # corpus first
     corpus = [c["case"] if "case" in c and "tensors" in c.get("case", {}) else c for c in load_corpus("C07")]
     deep_corpus = [c.get("case", c) for c in load_corpus("C07")]
-    deep_corpus = [c for c in deep_corpus if isinstance(c, dict) and c.get("family") in ("debug", "seq")]
+    deep_corpus = [c for c in deep_corpus if isinstance(c, dict) and c.get("family") in ("debug", "seq", "async")]
     if deep_corpus:
         _compare_deep(ctx, run_deep_chunk([{k: v for k, v in c.items() if k != "ops_done"} for c in deep_corpus]))
     corpus = [c for c in corpus if isinstance(c, dict) and "tensors" in c]
@@ -1833,6 +2304,9 @@ def _run(ctx: Ctx) -> None:
     else:
         ctx.exhaustive_scopes.append("parameter grid of DESIGN 5/C07: 5 thresholds x 4 alignments x 5 shard limits x 3 "
                                      "worker counts x 2 backends x 3 destination namings over the 10-kind model")
+    ctx.exhaustive_scopes.append("align_threshold grid: alignment {1, 4096, 8192} x align_threshold {0, 1} x shard limit "
+                                 "{None, 5000, 2^40} x workers {None, 4} over 7 small tensors (1 to 256 bytes, none of them "
+                                 "first-only), threshold 0: both clauses of C07_aligned evaluated on every recorded range")
     nrand = ctx.pick(1200, 20000)
     for _ in range(nrand):
         backend = "raw" if ctx.rng.random() < 0.7 else "st"
@@ -1848,7 +2322,8 @@ def _run(ctx: Ctx) -> None:
     _compare(ctx, results)
     # deepening round: restore loop through the setter (DEBUG mode, duck-typed tensors) and call sequences
     deep = [gen_debug_case(ctx.rng) for _ in range(ctx.pick(160, 1600))] + \
-           [gen_seq_case(ctx.rng) for _ in range(ctx.pick(320, 3200))]
+           [gen_seq_case(ctx.rng) for _ in range(ctx.pick(320, 3200))] + \
+           [gen_async_case(ctx.rng) for _ in range(ctx.pick(240, 2400))]
     dchunks = [deep[i::32] for i in range(32)]
     _compare_deep(ctx, [r for part in pmap(run_deep_chunk, [ch for ch in dchunks if ch]) for r in part])
 
@@ -1858,12 +2333,13 @@ def _probe_shard_names(case: dict) -> list[str]:
     plausible n; only used to set up the FileExistsError scenario)."""
     from onnx_ir import _shard_filename as sf
 
-    return [sf.get_shard_filename(case["ext"], 1, n) for n in range(1, len(case["tensors"]) + 2)]
+    names = [_real(sf.get_shard_filename, case["ext"], 1, n) for n in range(1, len(case["tensors"]) + 2)]
+    return [n for n in names if isinstance(n, str)]
 
 
 def replay(ctx: Ctx, obj: dict) -> None:
     case = obj.get("case", obj)
-    if isinstance(case, dict) and case.get("family") in ("debug", "seq"):
+    if isinstance(case, dict) and case.get("family") in ("debug", "seq", "async"):
         import shutil
 
         try:
@@ -1874,7 +2350,7 @@ def replay(ctx: Ctx, obj: dict) -> None:
     elif isinstance(case, dict) and "tensors" in case:
         case = {k: v for k, v in case.items() if k in (
             "backend", "tensors", "thr", "al", "athr", "max", "workers", "dest", "ext", "callback", "subgraphs",
-            "sched", "inflight", "fail", "preexisting", "preexisting_probe", "nested", "bare", "chunk")}
+            "sched", "inflight", "fail", "preexisting", "preexisting_probe", "nested", "bare", "chunk", "grid")}
         import shutil
 
         try:
